@@ -209,6 +209,8 @@ func cliMain(args []string) {
 					runHistory(env, c, emit)
 				} else if _, ok := c["multisite"]; ok {
 					runMultiSite(env, c, emit)
+				} else if asStr(c["fam"]) == "stream" {
+					runStream(env, c, emit)
 				}
 			}
 		}
